@@ -616,6 +616,14 @@ pub fn image_string() -> BoxedStrategy<String> {
         ("[a-z]{3,8}", "[a-z]{3,8}", "[0-9a-f]{16,40}").prop_map(|(a, b, h)| format!("{}/{}/{}", a, b, h)),
         ("[0-9a-f]{24,44}").prop_map(|h| format!("/srv/media/{}", h)),
         "[A-Za-z0-9+/]{22,30}={0,2}",
+        // a bare base64 image without the data: prefix ("base64 or a url" says the wasm documentation): PNG, GIF, JPEG and SVG signatures
+        Just("iVBORw0KGgoAAAANSUhEUgAAABAAAAAQCAIAAACQkWg2AAAAFUlEQVR4AWP4oyVDEhrGGkY1jGoAABACQhA+7XDPAAAAAElFTkSuQmCC".to_string()),
+        Just("R0lGODlhAQABAIAAAAAAAP///yH5BAEAAAAALAAAAAABAAEAAAIBRAA7".to_string()),
+        Just("/9j/4AAQSkZJRgABAQEASABIAAD/2wBD".to_string()),
+        Just("PHN2ZyB4bWxucz0iaHR0cDovL3d3dy53My5vcmcvMjAwMC9zdmciLz4=".to_string()),
+        Just("/9j/logo".to_string()),
+        // very long references of multi-byte characters (an inline SVG as text, an IRI): tens to hundreds of kilobytes
+        (prop_oneof![Just("é"), Just("中"), Just("🚀"), Just("aé")], 20_000usize..120_000).prop_map(|(u, n)| u.repeat(n)),
     ];
     (base, proptest::collection::vec((special, any::<u16>()), 0..4))
         .prop_map(|(mut s, ins)| {
